@@ -649,10 +649,20 @@ def literal_order(ctx, pt, o, label, ins_here, site):
         it = gen.iter
         ok = isinstance(it, ast.Call) and not it.keywords and len(it.args) == 1 and C.is_ext_call(ctx, it, fn, ("builtins.sorted",)) \
             and isinstance(gen.target, ast.Name) and isinstance(n.key, ast.Name) and n.key.id == gen.target.id and len(n.generators) == 1
+        srt = isinstance(it, ast.Call) and not it.keywords and len(it.args) == 1 and C.is_ext_call(ctx, it, fn, ("builtins.sorted",)) and len(n.generators) == 1
+        # {k: v for k, v in sorted(D.items())}: pairs of a dictionary sort by their (distinct) keys; a filter keeps the order
+        pairs = srt and isinstance(gen.target, (ast.Tuple, ast.List)) and len(gen.target.elts) == 2 and isinstance(gen.target.elts[0], ast.Name) \
+            and isinstance(n.key, ast.Name) and n.key.id == gen.target.elts[0].id \
+            and isinstance(it.args[0], ast.Call) and isinstance(it.args[0].func, ast.Attribute) and it.args[0].func.attr == "items" and not it.args[0].args
+        plain_walk = isinstance(it, ast.Name) or (isinstance(it, ast.Call) and isinstance(it.func, ast.Attribute) and it.func.attr in ("items", "keys") and not it.args)
         if ok:
             ctx.holds("C06.3", fn, "comprehension for '%s' iterates sorted(...) with the loop variable as key" % label, n)
-        else:
+        elif pairs:
+            ctx.holds("C06.3", fn, "comprehension for '%s' iterates sorted(<dictionary>.items()) and keys each entry by the pair's key" % label, n)
+        elif plain_walk and isinstance(n.key, ast.Name):
             ctx.violated("C06.3", fn, "comprehension for '%s' does not take its keys from sorted(...) in order" % label, n)
+        else:
+            ctx.undecided("C06.3", fn, "comprehension for '%s' iterates `%s` and keys by `%s`: whether the keys arrive in sorted order is not read for this form" % (label, norm(it)[:60], norm(n.key)[:30]), n)
         return 1
     if isinstance(n, ast.Call):
         if n.keywords and not n.args:
